@@ -110,6 +110,9 @@ class Region:
                 self.inlined.append(cands[0][1].name)
                 cur = inline_call(cur, cands[0][0], cands[0][1])
         self._finish(cur)
+        # helpers that fetch the next line from the input (`fn next_line(&mut reader, &mut buf) -> bool`) belong to the loop
+        READ = ("std::io::BufRead::read_until", "std::io::Read::read", "std::io::BufRead::skip_until", "std::io::BufRead::read_line")
+        self.inline_calls(lambda b: any(n in READ for n in _reach_names(self.facts, b.name)) and not self.eff.of(b.name), max_n=2)
 
     def inline_calls_with_arg(self, field, max_n=4):
         """inline calls in the region that are handed (a reference to) Args.<field>"""
